@@ -58,22 +58,17 @@ def strict_decode(der: bytes):
 
 
 def lenient_decode(der: bytes):
-    """tolerant TLV reader: SEQUENCE { INTEGER r, INTEGER s } with 1-byte lengths, ignoring minimality/sign rules
-    and trailing bytes inside/after; None if the structure cannot be read at all"""
+    """most tolerant TLV reading that still names an (r, s): a 2-byte outer header, then two tag-length-value
+    elements with 1-byte lengths; tags are not examined, declared lengths that overrun the buffer are clipped to the
+    bytes present; minimality/sign/trailing-data rules ignored.  None if not even that structure is there.
+    Inputs valid only under this reading are 'either answer allowed' (the property does not demand strict DER from
+    the verifier, only that (r, s) satisfy the equation)."""
     try:
-        if der[0] != 0x30:
-            return None
         body = der[2:2 + der[1]]
-        if body[0] != 0x02:
-            return None
         lr = body[1]
         r = int.from_bytes(body[2:2 + lr], "big")
         rest = body[2 + lr:]
-        if rest[0] != 0x02:
-            return None
         ls = rest[1]
-        if len(rest) < 2 + ls:
-            return None
         s = int.from_bytes(rest[2:2 + ls], "big")
         return r, s
     except IndexError:
